@@ -28,11 +28,13 @@ struct Console {
     /// 0..=len accepted, 100 = Interrupted, 101 = Other
     outcome: [usize; MAXC],
     faults_left: u8,
+    /// smallest short count the console may report (0: may accept nothing)
+    min_short: usize,
 }
 
 impl Console {
     fn new(faults: u8) -> Self {
-        Console { calls: 0, fg: [None; MAXC], bg: [None; MAXC], ptr: [0; MAXC], len: [0; MAXC], outcome: [0; MAXC], faults_left: faults }
+        Console { calls: 0, fg: [None; MAXC], bg: [None; MAXC], ptr: [0; MAXC], len: [0; MAXC], outcome: [0; MAXC], faults_left: faults, min_short: 0 }
     }
 }
 
@@ -44,7 +46,7 @@ impl anstyle_wincon::WinconStream for Console {
         if self.faults_left > 0 && vk::any_bool() {
             self.faults_left -= 1;
             let what = vk::any_u8_in(0, 2);
-            out = if what == 0 { 100 } else if what == 1 { 101 } else { vk::any_usize_in(0, data.len()) };
+            out = if what == 0 { 100 } else if what == 1 { 101 } else { vk::any_usize_in(if self.min_short < data.len() { self.min_short } else { data.len() }, data.len()) };
         }
         if i < MAXC {
             self.fg[i] = fg;
@@ -88,11 +90,33 @@ fn cap(c: Option<anstyle::Color>) -> Option<anstyle::AnsiColor> {
 
 /// write_all against every extractor answer (0-2 runs, arbitrary styles, 1-2 byte texts) and
 /// every console script with at most one misbehaving call
-#[cfg_attr(kani, kani::proof, kani::unwind(8),
+#[cfg_attr(kani, kani::proof, kani::unwind(5),
     kani::stub(crate::adapter::wincon::next_bytes, crate::adapter::verif_kani_wincon_sgr::wincon_next_recorder))]
 fn wincon_write_all_plumbing() {
+    write_all_against_console(0);
+}
+
+/// the same with at most ONE run from the extractor (the two-run harness above does not finish in
+/// CBMC: > 30 min, 10 GB; kept for a stronger back end)
+#[cfg_attr(kani, kani::proof, kani::unwind(5),
+    kani::stub(crate::adapter::wincon::next_bytes, crate::adapter::verif_kani_wincon_sgr::wincon_next_recorder))]
+fn wincon_write_all_single_run() {
+    unsafe { crate::adapter::verif_kani_wincon_sgr::RUN_LIMIT = 1; }
+    write_all_against_console(0);
+}
+
+/// two runs, the console never reports a zero-length write (the WriteZero error is built with
+/// `io::Error::new(kind, &str)`: String, Vec growth and a boxed trait object)
+#[cfg_attr(kani, kani::proof, kani::unwind(5),
+    kani::stub(crate::adapter::wincon::next_bytes, crate::adapter::verif_kani_wincon_sgr::wincon_next_recorder))]
+fn wincon_write_all_nonzero() {
+    write_all_against_console(1);
+}
+
+fn write_all_against_console(min_short: usize) {
     let buf = [b'x'; 3];
     let mut console = Console::new(1);
+    console.min_short = min_short;
     let mut state = WinconBytes::new();
     let r = write_all(&mut console, &mut state, &buf);
     let (nruns, total) = unsafe { (RUN_N, RUN_TOTAL) };
@@ -107,7 +131,8 @@ fn wincon_write_all_plumbing() {
             let (ptr, len) = unsafe { (RUN_PTR[ri], RUN_LEN[ri]) };
             let mut off = 0usize;
             let mut step = 0;
-            while step < MAXC {
+            // a run of <= 2 bytes with at most one misbehaving call takes at most 3 console calls
+            while step < 4 {
                 if off < len && fatal.is_none() {
                     assert!(c < console.calls, "every visible byte of every run is handed to the console");
                     assert!(console.fg[c] == cap(style.get_fg_color()) && console.bg[c] == cap(style.get_bg_color()),
@@ -145,7 +170,7 @@ fn wincon_write_all_plumbing() {
     if fatal.is_some() {
         assert!(r.is_err(), "a fatal console outcome is never turned into success");
     }
-    vk::vk_cover!(r.is_ok() && nruns == 2 && console.calls >= 3, "two runs with a retry or a short write");
+    vk::vk_cover!(r.is_ok() && nruns >= 1 && console.calls >= 2, "a run delivered after a retry or a short write");
     vk::vk_cover!(r.is_err(), "error path");
 }
 
